@@ -30,7 +30,7 @@ def run(rep, facts, tier):
         r_encclass.run(rep, f, c, 'C03-D5')
         n = r_lookahead.run(rep, f, c, 'R-LOOKAHEAD', lambda nm: nm.startswith(('handles::Utf16Source', 'single_byte::SingleByteEncoder')))
         rep.floor('R-LOOKAHEAD', 'surrogate look-ahead sites', n, 4, c)
-        n = r_surr.run(rep, f, c, 'R-SURR', lambda nm: 'Encoder::' in nm or nm.startswith(('handles::Utf16Source', 'handles::Utf8Source')))
+        n = r_surr.run(rep, f, c, 'R-SURR', lambda nm: 'Encoder::' in nm or nm.startswith(('handles::Utf16Source', 'handles::Utf8Source', 'utf_8::convert_utf16_to_utf8')))
         rep.floor('R-SURR', 'surrogate tests on the encoder side', n, 10, c)
         r_singlebyte.run(rep, f, c)
         r_singlebyte.raw_copies(rep, f, c)
